@@ -15,9 +15,11 @@ import (
 
 // C07 — compaction never changes what a read at or above the compaction revision sees.
 
-var c07Keys = []string{prefix + "/a", prefix + "/a/b", prefix + "/b", prefix + "/c/x", prefix + "/skip/x", prefix + "/skip/sub/y", prefix + "-x/k", "/other/x", "/tenant-b/x"}
+var c07Keys = []string{prefix + "/a", prefix + "/a/b", prefix + "/b", prefix + "/c/x", prefix + "/skip/x", prefix + "/skip/sub/y", prefix + "-x/k", "/other/x", "/tenant-b/x", prefix + "/skip.io/l", prefix + "/skip-2/m"}
 
-var c07Skips = [][]string{nil, nil, {prefix + "/skip"}, {prefix + "/skip", prefix + "/c"}, {prefix + "/skip", prefix + "/skip/sub"}, {prefix + "-x"}, {"/zzz"}, {prefix + "/skip", "/zzz"}}
+var c07Skips = [][]string{nil, nil, {prefix + "/skip"}, {prefix + "/skip", prefix + "/c"}, {prefix + "/skip", prefix + "/skip/sub"}, {prefix + "-x"}, {"/zzz"}, {prefix + "/skip", "/zzz"},
+	// one skipped prefix is a string prefix of another that goes on with a byte below the separator
+	{prefix + "/skip", prefix + "/skip.io"}, {prefix + "/skip.io", prefix + "/skip"}, {prefix + "/skip-2", prefix + "/skip", prefix + "/c"}}
 
 const c07Variants = 48
 
